@@ -688,7 +688,7 @@ func c11Subsets(items []string, k int) [][]string {
 
 func c11Configs(thorough bool) []c11Config {
 	var out []c11Config
-	keys := [][]string{nil, {"host"}, {"region"}, {"host", "region"}}
+	keys := [][]string{{"host"}, {"host", "region"}, {"region"}, nil} // no key (nothing to prune) last
 	type topo struct{ nodes, ptpn int }
 	// most shards first: if the internal deadline cuts a run, the configurations where pruning can remove most are done
 	topos := []topo{{4, 1}, {3, 1}, {2, 1}, {1, 1}}
